@@ -170,6 +170,11 @@ class FullGaussianObservationModel(GaussianObservationModel):
         # TODO? by linearity couldn't we only require `-2*y_x_model + model_x_model` as summary stat?
         # and couldn't we even collect the already summed version of it?
         s1 = sum_dim(y_x_model)
+        # `model` is only masked on visits that are entirely missing (padding): the weights
+        # of `y` are needed to also skip the features that are missing inside an existing visit
+        # (as done in `.diagonal_noise_std_update()`), otherwise `n_obs` and `s2` are inconsistent
+        if not isinstance(model_x_model, WeightedTensor):
+            model_x_model = WeightedTensor(model_x_model, y_x_model.weight)
         s2 = sum_dim(model_x_model)
         noise_var = (y_l2 - 2 * s1 + s2) / n_obs.float()
         return compute_std_from_variance(
